@@ -208,8 +208,7 @@ class EditMedia(HTMLHandlerBase):
         login_required(permission=models.Group.MEDIA),
     ]
 
-    @classmethod
-    def next_url(cls, spk: int, **kwargs) -> str:
+    def next_url(self, spk: int, **kwargs) -> str:
         return flask.url_for('view-stream', spk=current_stream.pk)
 
     def get(self, spk: int, mfid: int) -> flask.Response:
@@ -686,7 +685,9 @@ class ValidateMediaChanges(HTMLHandlerBase):
         try:
             lang = data['lang']
             track_id = int(data['track_id'], 10)
-        except (KeyError, ValueError):
+        except (KeyError, ValueError, TypeError):
+            return jsonify_no_content(400)
+        if not isinstance(lang, str):
             return jsonify_no_content(400)
         errors: dict[str, str] = {
             "lang": '',
